@@ -14,5 +14,6 @@ pub mod context;
 pub mod declaration;
 pub mod def;
 pub mod program;
+pub mod renaming;
 pub mod terms;
 pub mod types;
